@@ -1,4 +1,5 @@
 import LivesimVerif.Model.Fault
+import LivesimVerif.Props.C02
 /-!
 # C14 — Fault-injection parameters hit exactly the scheduled requests
 
@@ -142,10 +143,153 @@ theorem c14_other_reps_normal (a : Asset) (r : Rep) (cfg : Cfg) (segId nowMS : N
   induction pats with
   | nil => rfl
   | cons p rest ih =>
-    unfold calcStatusCode.go
+    unfold codeGo
     have := hno p (by simp)
     simp only [this, Bool.not_false, ↓reduceIte]
     exact ih (fun q hq => hno q (by simp [hq]))
+
+/-! ## which segment of a cycle is hit -/
+
+theorem S_lt_succ (a : Asset) (r : Rep) (h : Contig r) (hc : Closes a r) (k : Nat) : S a r k < S a r (k + 1) := by
+  rw [c01_gap_free a r h hc k, E_eq_S_add a r h k]
+  have := segDur_pos r h k
+  omega
+
+theorem S_strictMono (a : Asset) (r : Rep) (h : Contig r) (hc : Closes a r) (k k' : Nat) (hk : k < k') :
+    S a r k < S a r k' := by
+  induction k' with
+  | zero => omega
+  | succ n ih =>
+    have hs := S_lt_succ a r h hc n
+    by_cases he : k = n
+    · subst he; exact hs
+    · have := ih (by omega); omega
+
+theorem findSegStartTime_eq (a : Asset) (r : Rep) (k : Nat) : findSegStartTime a r k = S a r k := by
+  unfold findSegStartTime S
+  have : k - k / r.N * r.N = k % r.N := by
+    have := Nat.div_add_mod k r.N
+    have hm : k / r.N * r.N = r.N * (k / r.N) := Nat.mul_comm _ _
+    omega
+  rw [this]
+
+/-- **The first segment of a cycle.**  `cycleFirst` — what `calcStatusCode` subtracts from the request's index — is the
+least segment index whose start lies at or after the start of the cycle (cycles of `cycle` seconds counted from the start
+of the stream) that contains the requested segment's start `t`: cycles not divisible by the segment duration, loop
+wraps and a non-zero stream start included. -/
+theorem c14_cycle_first (a : Asset) (cfg : Cfg) (r : Rep) (h : Contig r) (hc : Closes a r)
+    (hadm : a.loopMS * r.T = 1000 * r.dur) (hl : 0 < a.loopMS) (cycle t : Nat) :
+    t / (cycle * r.T) * cycle * r.T ≤ S a r (cycleFirst a cfg r cycle r.T t) ∧
+    ∀ j, j < cycleFirst a cfg r cycle r.T t → S a r j < t / (cycle * r.T) * cycle * r.T := by
+  unfold cycleFirst
+  simp only [findSegStartTime_eq]
+  generalize hcn : t / (cycle * r.T) = c
+  have hS0 : S a r 0 = 0 := by
+    have := S_decomp a r 0 0 h.1
+    simp only [Nat.mul_zero, Nat.zero_add, Nat.zero_mul] at this
+    rw [this, hc.2]
+  by_cases hc0 : c > 0
+  · rw [if_pos hc0]
+    unfold findLastSegNr
+    have hnow : cfg.startS * 1000 ≤ (c * cycle + cfg.startS) * 1000 := by
+      rw [Nat.add_mul]; omega
+    have hτ : ((c * cycle + cfg.startS) * 1000 - cfg.startS * 1000 + 0) * r.T / 1000 = c * cycle * r.T := by
+      have : (c * cycle + cfg.startS) * 1000 - cfg.startS * 1000 + 0 = c * cycle * 1000 := by
+        rw [Nat.add_mul]; omega
+      rw [this, Nat.mul_right_comm _ 1000 r.T, Nat.mul_div_cancel _ (by decide : 0 < 1000)]
+    rcases genTimeline_last a r h hc hadm hl cfg.startS ((c * cycle + cfg.startS) * 1000) 60 0 hnow with
+      ⟨hs, he, ht⟩ | ⟨k, hk, _, _, h1, h2⟩
+    · -- nothing has ended at the cycle start: the first segment straddles it
+      rw [hτ] at ht
+      have hf0 : ((genTimeline r (calcWrapTimes a cfg.startS ((c * cycle + cfg.startS) * 1000) 60) 0).startNr +
+          ((genTimeline r (calcWrapTimes a cfg.startS ((c * cycle + cfg.startS) * 1000) 60) 0).entries.length : Int)
+          - 1 + 1).toNat = 0 := by
+        rw [hs, he]; decide
+      rw [hf0, hS0]
+      have hE0 : S a r (0 + 1) = E a r 0 := c01_gap_free a r h hc 0
+      by_cases hz : 0 < c * cycle * r.T
+      · rw [if_pos hz]
+        refine ⟨by omega, ?_⟩
+        intro j hj
+        have : j = 0 := by omega
+        subst this; rw [hS0]; exact hz
+      · rw [if_neg hz]
+        exact ⟨by omega, fun j hj => by omega⟩
+    · rw [hτ] at h1 h2
+      rw [hk]
+      have hf0 : ((k : Int) + 1).toNat = k + 1 := by omega
+      rw [hf0]
+      have hSk : S a r (k + 1) = E a r k := c01_gap_free a r h hc k
+      have hSk2 : S a r (k + 1 + 1) = E a r (k + 1) := c01_gap_free a r h hc (k + 1)
+      by_cases hz : S a r (k + 1) < c * cycle * r.T
+      · rw [if_pos hz]
+        refine ⟨by omega, ?_⟩
+        intro j hj
+        rcases Nat.lt_or_ge j (k + 1) with hjk | hjk
+        · have := S_strictMono a r h hc j (k + 1) hjk; omega
+        · have : j = k + 1 := by omega
+          subst this; exact hz
+      · rw [if_neg hz]
+        refine ⟨by omega, ?_⟩
+        intro j hj
+        have := S_strictMono a r h hc j (k + 1) hj
+        omega
+  · rw [if_neg hc0]
+    have : c = 0 := by omega
+    subst this
+    simp only [Nat.zero_mul, Int.toNat_zero, hS0, Nat.lt_irrefl, ↓reduceIte]
+    exact ⟨Nat.le_refl _, fun j hj => by omega⟩
+
+/-- … hence a requested segment `k` lies at or after the first of its cycle: the "internal error" branch of
+`calcStatusCode` is dead, and `k − cycleFirst` is the 0-based rank of `k` among the segments starting in its cycle
+(`cycleFirst … k` are exactly the segments of index ≤ k that start at or after the cycle start). -/
+theorem c14_rank (a : Asset) (cfg : Cfg) (r : Rep) (h : Contig r) (hc : Closes a r)
+    (hadm : a.loopMS * r.T = 1000 * r.dur) (hl : 0 < a.loopMS) (cycle k : Nat) (hcy : 0 < cycle * r.T) :
+    cycleFirst a cfg r cycle r.T (S a r k) ≤ k ∧
+    ∀ j, j ≤ k → (cycleFirst a cfg r cycle r.T (S a r k) ≤ j ↔ S a r k / (cycle * r.T) * cycle * r.T ≤ S a r j) := by
+  obtain ⟨h1, h2⟩ := c14_cycle_first a cfg r h hc hadm hl cycle (S a r k)
+  have hcs : S a r k / (cycle * r.T) * cycle * r.T ≤ S a r k := by
+    rw [Nat.mul_assoc]; exact Nat.div_mul_le_self _ _
+  have hle : cycleFirst a cfg r cycle r.T (S a r k) ≤ k := by
+    rcases Nat.lt_or_ge k (cycleFirst a cfg r cycle r.T (S a r k)) with hlt | hge
+    · have := h2 k hlt; omega
+    · exact hge
+  refine ⟨hle, ?_⟩
+  intro j hj
+  constructor
+  · intro hfj
+    rcases Nat.eq_or_lt_of_le hfj with he | hlt
+    · rw [← he]; exact h1
+    · have := S_strictMono a r h hc _ _ hlt; omega
+  · intro hsj
+    rcases Nat.lt_or_ge j (cycleFirst a cfg r cycle r.T (S a r k)) with hlt | hge
+    · have := h2 j hlt; omega
+    · exact hge
+
+/-- **The configured code is returned iff the request is the configured relative number of its cycle** (first pattern
+whose representation filter matches; every other request falls through to the remaining patterns / normal service). -/
+theorem c14_code_iff (a : Asset) (r : Rep) (cfg : Cfg) (m : Meta) (mrep : Rep) (p : Pat) (rest : List Pat) (k : Nat)
+    (h : Contig mrep) (hc : Closes a mrep) (hadm : a.loopMS * mrep.T = 1000 * mrep.dur) (hl : 0 < a.loopMS)
+    (hT : m.T = mrep.T) (htime : m.newTime = S a mrep k) (hnr : m.newNr = cfg.startNr + k)
+    (hrep : repInReps r.id p = true) (hcy : 0 < p.cycle * mrep.T) :
+    codeGo a r cfg m mrep (p :: rest) =
+      if k - cycleFirst a cfg mrep p.cycle mrep.T (S a mrep k) = p.rsq then .code p.code
+      else codeGo a r cfg m mrep rest := by
+  have hr := (c14_rank a cfg mrep h hc hadm hl p.cycle k hcy).1
+  conv => lhs; unfold codeGo
+  simp only [hrep, Bool.not_true, Bool.false_eq_true, ↓reduceIte, hT, htime, hnr]
+  rw [if_neg (by omega), if_neg (by omega)]
+  have : cfg.startNr + k - cfg.startNr - cycleFirst a cfg mrep p.cycle mrep.T (S a mrep k)
+      = k - cycleFirst a cfg mrep p.cycle mrep.T (S a mrep k) := by omega
+  rw [this]
+
+/-- non-vacuity: `testpic_2s` (2 s segments), cycle 30 s (not a multiple of 2 s·k for the stream as a whole is not
+needed; here 7 s below): segment 17 starts at 34 s, in the cycle starting at 30 s whose first segment is 15 → rank 2;
+with a 7 s cycle, segment 17 lies in the cycle starting at 28 s, first segment 14 → rank 3; segment 4 (8 s) lies in
+the cycle starting at 7 s whose first *starting* segment is 4 → rank 0. -/
+example : cycleFirst exAsset Cfg.default exRep 30 90000 (S exAsset exRep 17) = 15 := by decide
+example : cycleFirst exAsset Cfg.default exRep 7 90000 (S exAsset exRep 17) = 14 := by decide
+example : cycleFirst exAsset Cfg.default exRep 7 90000 (S exAsset exRep 4) = 4 := by decide
 
 /-- non-vacuity: `u20d3u12`: second 21 of the cycle is down, second 35 ≡ 0 is up -/
 example : parseLoss "u20d3u12" = some [(1, 20), (2, 3), (1, 12)] := by decide
